@@ -33,7 +33,8 @@ def make_scat_obj(S):
 
     class _Obj(scat.Scattering2d):
         def __call__(self, inc_theta, out_theta, frequency, to_compute=scat.SCAT_KEYS):
-            base = S(inc_theta, out_theta) * (1 + frequency / 1e6)
+            # deliberately NOT linear in frequency: a wrong segment or sample order must change the interpolated value
+            base = S(inc_theta, out_theta) * (1.5 + np.cos(frequency / 7e5) + (frequency / 2e6) ** 2)
             return {k: base * (i + 1) for i, k in enumerate(sorted(scat.SCAT_KEYS)) if k in to_compute}
     return _Obj()
 
@@ -124,6 +125,10 @@ def run(ctx):
             if np.abs(mats[k] - full[k]).max() > 1e-12 * np.abs(full[k]).max() or mats[k].shape != (n, n):
                 ctx.violate(f"matrix {k}: entry [j, i] is not S(inc = theta_i, out = theta_j)", cj, {"kind": "representation"})
         fr = np.sort(rng.uniform(1e6, 6e6, size=int(rng.integers(1, 5))))
+        # sampled frequencies in measurement order (not necessarily increasing) in half of the cases
+        if rng.random() < 0.5:
+            fr = fr[rng.permutation(len(fr))] if rng.random() < 0.7 else fr[::-1].copy()
+            ctx.count("frequencies_unsorted" if len(fr) > 1 and np.any(np.diff(fr) < 0) else "frequencies_sorted")
         mm = obj.as_multi_freq_matrices(fr, n, set(keys))
         for k in keys:
             for a, f_ in enumerate(fr):
@@ -140,16 +145,17 @@ def run(ctx):
                 if np.abs(r[k] - mm[k][a][j, i]).max() > 1e-9 * np.abs(mm[k]).max() or set(r) != set(keys):
                     ctx.violate("ScatFromData does not reproduce its data at a sampled frequency / returns other keys", cj, {"kind": "scat_from_data"})
         if len(fr) >= 2:
-            fnew = float(rng.uniform(fr[0] - 1e5, fr[-1] + 1e5))
-            r = sfd(q_inc[:1], q_out[:1], fnew)
             kk = keys[0]
             i, j = int(np.argmin(np.abs(th - q_inc[0]))), int(np.argmin(np.abs(th - q_out[0])))
-            vals = mm[kk][:, j, i]
-            seg = int(np.clip(np.searchsorted(fr, fnew) - 1, 0, len(fr) - 2))
-            want = vals[seg] + (vals[seg + 1] - vals[seg]) * (fnew - fr[seg]) / (fr[seg + 1] - fr[seg])
+            order = np.argsort(fr)
+            frs, vals = fr[order], mm[kk][order, j, i]
+            fnew = float(rng.uniform(frs[0] - 1e5, frs[-1] + 1e5))
+            r = sfd(q_inc[:1], q_out[:1], fnew)
+            seg = int(np.clip(np.searchsorted(frs, fnew) - 1, 0, len(frs) - 2))
+            want = vals[seg] + (vals[seg + 1] - vals[seg]) * (fnew - frs[seg]) / (frs[seg + 1] - frs[seg])
             if abs(r[kk][0] - want) > 1e-9 * np.abs(vals).max():
                 ctx.violate("ScatFromData is not linear in frequency between (or beyond) its samples", {**cj, "freqs": fr.tolist(), "f": fnew}, {"kind": "freq_linear"})
-            lines.append(f"freqinterp {ql([F(float(x)) for x in fr])} {ql([F(float(x)) for x in vals.real])} {frac_s(F(fnew))}")
+            lines.append(f"freqinterp {ql([F(float(x)) for x in frs])} {ql([F(float(x)) for x in vals.real])} {frac_s(F(fnew))}")
             meta.append(("freq", want.real, cj, np.abs(vals).max()))
         d = CACHE / f"c10-{ctx.seed}"
         d.mkdir(parents=True, exist_ok=True)
